@@ -458,6 +458,11 @@ fn run_text(filter: &data::Filter, vals: Vec<Val>, inputs: Vec<Val>, limit: usiz
 /// the programs R times concurrently on the shared compiled filters (values are built inside the threads; with the
 /// feature `sync` the input values are shared, too), while one more thread keeps compiling the programs again.
 /// Every result is compared with the result of the isolated run made before.
+/// threads with the stack of the main thread (deep, non-tail recursion of a program is not what is tested here)
+fn big() -> std::thread::Builder {
+    std::thread::Builder::new().stack_size(64 << 20)
+}
+
 fn cmd_threads(args: &[Sx]) -> Result<Sx, String> {
     let progs = args[0].list().ok_or("programs")?;
     let t: usize = args[1].atom().ok_or("T")?.parse().map_err(|_| "T")?;
@@ -510,7 +515,7 @@ fn cmd_threads(args: &[Sx]) -> Result<Sx, String> {
     let barrier = std::sync::Barrier::new(t);
     std::thread::scope(|sc| {
         // a thread that compiles while the others run, with two different lists of natives in turn
-        sc.spawn(|| {
+        big().spawn_scoped(sc, || {
             let mut k = 0usize;
             while !stop.load(std::sync::atomic::Ordering::Relaxed) {
                 for p in &ps {
@@ -518,14 +523,14 @@ fn cmd_threads(args: &[Sx]) -> Result<Sx, String> {
                     let _ = if k % 2 == 0 { compile(&p.code, &p.names) } else { compile_alt(&p.code, &p.names) };
                 }
             }
-        });
+        }).unwrap();
         let mut hs = Vec::new();
         for ti in 0..t {
             let ps = &ps;
             let differ = &differ;
             #[cfg(feature = "sync")]
             let shared = &shared;
-            hs.push(sc.spawn(move || {
+            hs.push(big().spawn_scoped(sc, move || {
                 for ri in 0..r {
                     // threads walk the programs in different orders
                     for k in 0..ps.len() {
@@ -561,7 +566,7 @@ fn cmd_threads(args: &[Sx]) -> Result<Sx, String> {
                         }
                     }
                 }
-            }));
+            }).unwrap());
         }
         for h in hs {
             let _ = h.join();
@@ -574,7 +579,7 @@ fn cmd_threads(args: &[Sx]) -> Result<Sx, String> {
             let barrier = &barrier;
             #[cfg(feature = "sync")]
             let shared = &shared;
-            hs.push(sc.spawn(move || {
+            hs.push(big().spawn_scoped(sc, move || {
                 for (i, p) in ps.iter().enumerate() {
                     barrier.wait();
                     for ri in 0..(r * 8) {
@@ -596,7 +601,7 @@ fn cmd_threads(args: &[Sx]) -> Result<Sx, String> {
                         }
                     }
                 }
-            }));
+            }).unwrap());
         }
         for h in hs {
             let _ = h.join();
